@@ -319,6 +319,8 @@ class Text(Op):
             anchor = info["anchor"]
             if not 0 <= anchor[1] <= 9000:
                 continue
+            if any(t is not None and t[1] < 0 for t in (rec[1], rec[3])):
+                continue      # (a week date of week-year -1 can be 1 January of year 0: years below 0 do not print)
             yield (m, rec, tuple(sorted(info.items())))
 
     def line(self, a):
